@@ -13,7 +13,7 @@
 EXTENDS PurlGrammar, PurlBuilder, Json, TLCExt
 CONSTANTS MODE, L
 
-NameAlpha == <<97, 65, 49, 45, 95, 46, 198, 453, 931, 233>>      \* a A 1 - _ . AE Dz(titlecase) Sigma e-acute
+NameAlpha == <<97, 65, 49, 45, 95, 46, 198, 453, 931, 233, 304>>      \* a A 1 - _ . AE Dz(titlecase) Sigma e-acute I-dot(two-scalar mapping)
 CombAlpha == <<97, 98, 47, 58>>
 TypesN == <<PYPI, NUGET, CARGO, NPM, MAVEN>>
 AllTypes == <<CARGO, GEM, GOLANG, MAVEN, NPM, NUGET, PYPI>>
@@ -42,7 +42,7 @@ LookupUniverse ==
 
 VARIABLES w, t, done
 vars == <<w, t, done>>
-TypeAlpha == <<103, 66, 84, 49, 46, 43, 45, 33, 44, 233, 8490>>     \* g B T 1 . + - ! , e-acute Kelvin
+TypeAlpha == <<103, 66, 84, 90, 49, 46, 43, 45, 33, 44, 233, 8490, 13, 16>>     \* g B T Z 1 . + - ! , e-acute Kelvin CR DLE
 Alpha == IF MODE = "combined" THEN CombAlpha ELSE IF MODE = "typestr" THEN TypeAlpha ELSE NameAlpha
 TypeSeq == IF MODE = "combined" THEN AllTypes ELSE IF MODE = "typestr" THEN <<CARGO>> ELSE TypesN
 Init == IF MODE = "lookup" THEN w \in LookupUniverse /\ t = 1 /\ done = TRUE
